@@ -3,7 +3,9 @@
  * Constants of the output relay in src/pdsh/dsh.c that are literals inside functions (not
  * macros) and therefore have to be read off the running code:
  *   RELAY_CBUF_MIN/MAX   the arguments of cbuf_create() in _thd_init()
- *   RELAY_TAILBUF        sizeof(buf) in _flush_output() (a tail is cut every RELAY_TAILBUF-1 bytes)
+ *   RELAY_SIZE_META_ASSERT  alloc - size of a cbuf in the build flavour with assertions
+ *   RELAY_TAILBUF        1 + the size of the first piece _flush_output() writes of a rest that fills the whole
+ *                        buffer (a tail is cut every RELAY_TAILBUF-1 bytes; sizeof(buf) in the shipped code)
  *   RELAY_TAIL_CALLS     number of out() calls _flush_output() spends on a short labelled tail:
  *                        2 = label and data separately (defect D6), 1 = one call (repaired form)
  *   RELAY_XRC_SKIPS_DIGIT  _extract_rc on "foo" RC_MAGIC "3\n": 1 = returns 0, the status is parsed
@@ -54,7 +56,8 @@ int main(void)
 {
     opt_t opt;
     thd_t th[2];
-    static char big[20000];
+    char *big;
+    size_t bigsz;
 
     err_init("probe");
     memset(&opt, 0, sizeof(opt));
@@ -64,12 +67,24 @@ int main(void)
     _thd_init(&th[0], &opt, NULL, 0);
     LEAN_NAT("RELAY_CBUF_MIN", th[0].outbuf->minsize);
     LEAN_NAT("RELAY_CBUF_MAX", th[0].outbuf->maxsize);
+    /* bookkeeping cells (alloc - size) of the OTHER build flavour of cbuf.c, the one with assertions
+     * (cbuf_create: `alloc = minsize + 1; #ifndef NDEBUG alloc += 2 * CBUF_MAGIC_LEN`); this probe is
+     * compiled like the shipped build (NDEBUG).  The checks compare it with what the assertion-enabled
+     * harness reports (`--meta`). */
+#ifndef CBUF_MAGIC_LEN
+#define CBUF_MAGIC_LEN (sizeof(unsigned long))
+#endif
+    LEAN_NAT("RELAY_SIZE_META_ASSERT", (th[0].outbuf->alloc - th[0].outbuf->size) + 2 * CBUF_MAGIC_LEN);
     LEAN_NAT("RELAY_ERRBUF_SAME", th[0].errbuf->minsize == th[0].outbuf->minsize &&
                                   th[0].errbuf->maxsize == th[0].outbuf->maxsize);
 
-    memset(big, 'x', sizeof(big));
+    /* the longest unterminated rest a buffer can hold: the piece size of _flush_output is learnt from what it does
+     * with it (8192-byte stack buffer: pieces of 8191; a buffer sized to the rest: one piece of everything) */
+    bigsz = (size_t) th[0].outbuf->maxsize;
+    big = malloc(bigsz);
+    memset(big, 'x', bigsz);
     th[0].labels = false;
-    cbuf_write(th[0].outbuf, big, sizeof(big), NULL);
+    cbuf_write(th[0].outbuf, big, (int) bigsz, NULL);
     ncalls = 0;
     _flush_output(th[0].outbuf, (out_f) recorder, &th[0]);
     LEAN_NAT("RELAY_TAILBUF", ncalls > 0 ? call_len[0] + 1 : 0);
